@@ -750,7 +750,8 @@ class OptionalConverter(Generic[T, T_NP], JsonConverter[Optional[T], np.void]):
     def __init__(self, element_converter: JsonConverter[T, T_NP]) -> None:
         super().__init__(
             np.dtype(
-                [("has_value", np.bool_), ("value", element_converter.overall_dtype())]
+                [("has_value", np.bool_), ("value", element_converter.overall_dtype())],
+                align=True,  # as get_dtype() documents it
             )
         )
         self._element_converter = element_converter
